@@ -3,7 +3,7 @@
 # a plain copy of /repo's working tree with seeded/<name>/patch.diff applied and a copy of /verif are
 # bind-mounted over /repo and /verif inside a private mount namespace (so it can run beside other checks).
 name=$1; shift
-iso=/tmp/iso-$name
+iso=/tmp/iso-$name-$$
 rm -rf $iso; mkdir -p $iso/repo $iso/verif
 rsync -a --exclude .git --exclude bin /repo/ $iso/repo/
 ( cd $iso/repo && git apply ${PATCH:-/verif/seeded/$name/patch.diff} ) || { echo "PATCH-DOES-NOT-APPLY"; rm -rf $iso; exit 2; }
